@@ -110,9 +110,10 @@ def determinism_recheck(pid, seed, tier, results, procs, k):
 
 
 def write_replay(pid, seed, tier, key, src_run, sh, msg):
-    os.makedirs(os.path.join(VERIF, 'replays'), exist_ok=True)
+    rdir = os.environ.get('VERIF_REPLAY_DIR') or os.path.join(VERIF, 'replays')
+    os.makedirs(rdir, exist_ok=True)
     h = hashlib.sha256(json.dumps([pid, key, sh['choices']]).encode()).hexdigest()[:10]
-    path = os.path.join(VERIF, 'replays', '%s-%s-%s-%s.json' % (pid, seed, src_run, h))
+    path = os.path.join(rdir, '%s-%s-%s-%s.json' % (pid, seed, src_run, h))
     doc = {'property': pid, 'class': key[0], 'signature': key[1], 'message': msg,
            'seed': seed, 'tier': tier, 'run_index': src_run,
            'choices': sh['choices'], 'labels': sh.get('labels'),
@@ -282,8 +283,9 @@ def check(pid, tier, nruns, procs, seed):
     extra = getattr(mod, 'extra_evidence', None)
     if extra is not None:
         ev['coverage'].update(extra(results))
-    os.makedirs(os.path.join(VERIF, 'evidence'), exist_ok=True)
-    with open(os.path.join(VERIF, 'evidence', pid + '.json'), 'w') as f:
+    edir = os.environ.get('VERIF_EVIDENCE_DIR') or os.path.join(VERIF, 'evidence')
+    os.makedirs(edir, exist_ok=True)
+    with open(os.path.join(edir, pid + '.json'), 'w') as f:
         json.dump(ev, f, indent=1, sort_keys=True)
     log('%s %s: runs=%d distinct_nontrivial=%d excluded=%d faults=%s known=%d new=%d det=%d/%d wall=%.1fs exit=%d' %
         (pid, tier, n, len(covs), len(excluded), dict(faults), len(known_seen), len(new_keys),
